@@ -26,6 +26,8 @@ class Program:
             self.funcs[fn.name] = fn
             self.byshort[fn.short] = fn
         self._tid = {}
+        for t in sorted(self.types):
+            self._tid[t] = len(self._tid) + 1
 
     # ---- types ----
     def desc(self, t):
